@@ -38,7 +38,9 @@ def main():
     d = make_scratch()
     try:
         for p in a.patch:
-            subprocess.run(["git", "apply", "--unsafe-paths", "--directory", d, os.path.abspath(p)], check=True, cwd="/")
+            r = subprocess.run(["git", "apply", "--unsafe-paths", "--directory", d, os.path.abspath(p)], cwd="/")
+            if r.returncode != 0:
+                subprocess.run("patch -p1 --fuzz=3 --no-backup-if-mismatch -d %s < %s" % (d, os.path.abspath(p)), shell=True, check=True)
         for f, old, new in a.sub:
             fp = os.path.join(d, f)
             s = open(fp).read()
